@@ -1,7 +1,8 @@
 (* C12 as stated: (1) a message object is never returned to the pool twice without being
    re-acquired in between; (2) it is never recycled while the application legitimately holds
    it, and (3) its content stays unchanged during that time; (4,5) the library never reads or
-   writes a message after releasing it.  Written per object over the observed lifecycle events,
+   writes a message after releasing it (a write is seen at the latest when the message is handed out again:
+   Reacq with a broken poison pattern; a read or write through an accessor is seen when it happens: Use).  Written per object over the observed lifecycle events,
    independently of Pool/Model.v (a simple scan with explicit flags). *)
 From Coq Require Import ZArith NArith List Bool.
 From GoCoap Require Import Pool.Model.
@@ -24,6 +25,7 @@ Fixpoint scan (f : flags) (t : list lc) : N :=
       | Hold _ => if in_pool f then 5%N else scan {| in_pool := false; app_holds := true; app_releasing := false |} r
       | Unhold _ same => if same then scan {| in_pool := in_pool f; app_holds := false; app_releasing := app_releasing f |} r else 3%N
       | AppRel _ => if in_pool f then 1%N else scan {| in_pool := false; app_holds := app_holds f; app_releasing := true |} r
+      | Use _ => if in_pool f then 7%N else scan f r   (* (4) read or written after it was released *)
       end
   end.
 
